@@ -276,7 +276,7 @@ def run(ctx, col: Collector):
                               f'file opened with encoding={enc!r}',
                               f'file opened with encoding={enc!r}: non-ASCII documents then depend on the locale',
                               node=n, file=fi.file)
-        col.floor('C12-utf8', 'open() calls on routes', n_open, 2)
+        col.floor('C12-utf8', 'open() calls on routes', n_open, 1)
     guarded(col, 'C12-utf8', 'open-calls', encodings)
 
     # ---------------------------------------------------------------- (iii) option forwarding
@@ -325,16 +325,21 @@ def run(ctx, col: Collector):
                                 out[f'self.{t.attr}'] = v.id
             return out
 
-        def check_call(fi: FuncInfo, call: ast.Call, callee_node, callee_name, skip_first):
+        def check_call(fi: FuncInfo, call: ast.Call, callee_node, callee_name, skip_first, must_accept=False):
             nonlocal hops
             cparams = {a.arg for a in list(callee_node.args.args) + list(callee_node.args.kwonlyargs)}
             car = carriers_in(fi)
             bound = bind_args(call, callee_node, skip_first=skip_first)
             for o in OPTIONS:
-                if o not in cparams:
-                    continue
                 if o not in set(car.values()):
                     continue   # caller does not carry the option (e.g. parse_file)
+                if o not in cparams:
+                    if must_accept:
+                        hops += 1
+                        col.bad('C12-options', f'{fi.qualname}->{callee_name}:{o}',
+                                f'{fi.qualname} accepts `{o}` but routes the source through {callee_name}, which has no such '
+                                f'parameter: the option is dropped on this route', node=call, file=fi.file)
+                    continue
                 hops += 1
                 arg = bound.get(o)
                 cons = f'{fi.qualname}->{callee_name}:{o}'
@@ -370,7 +375,7 @@ def run(ctx, col: Collector):
                                         f'which cannot receive it: the option is dropped on this route',
                                         node=n, file=fi.file)
                         else:
-                            check_call(fi, n, c.node, c.qualname, c.kind in ('method', 'classmethod'))
+                            check_call(fi, n, c.node, c.qualname, c.kind in ('method', 'classmethod'), must_accept=True)
         # the parser and the database store what they receive
         for cls, attrs in ((parser_cls, None), (db_cls, None)):
             init = idx.lookup_method(cls.id, '__init__')
@@ -389,7 +394,7 @@ def run(ctx, col: Collector):
                               f'{cls.name}.__init__ accepts `{o}` but never stores it', node=init.node,
                               file=init.file)
         # Database reads what it stored (sql_renderer / dbml_renderer names checked in C16)
-        col.floor('C12-options', 'option hops', hops, 15)
+        col.floor('C12-options', 'option hops', hops, 12)
         col.stat('option_hops', hops)
     guarded(col, 'C12-options', 'hops', options)
 
